@@ -380,15 +380,21 @@ class Engine:
                         pass
                 t = threading.Thread(target=feed, daemon=True)
                 t.start()
-                rc, panicked, _ = self.run(["compress", "pipe.in", "pipe.zst", "--level", "1"], d)
-                t.join(timeout=10)
+                try:
+                    pr = subprocess.run([CLI, "compress", "pipe.in", "pipe.zst", "--level", "1"], cwd=d, env=self.env, stdout=subprocess.PIPE, stderr=subprocess.PIPE, timeout=90)
+                    rc = pr.returncode
+                except subprocess.TimeoutExpired:
+                    rc = None
+                t.join(timeout=5)
+                if rc is None:
+                    raise OSError("the pipe case did not finish in this environment")
                 self.stat(f"compress:fifo:exit={exit_class(rc)}")
                 self.oracle_checks += 1
                 outp = os.path.join(d, "pipe.zst")
                 if rc == 0 and not (os.path.exists(outp) and self.zstd_restores(outp, data)):
                     self.fail("cli_pipe_input_truncated", f"`compress pipe.in pipe.zst` (a named pipe fed {len(data)} bytes): exit status 0 but the archive does not restore the data", "# mkfifo pipe.in; (head -c 300000 file > pipe.in &); ruzstd-cli compress pipe.in pipe.zst --level 1")
-            except (OSError, AttributeError):
-                self.notes.append("named pipes not available here: the pipe-input case was skipped")
+            except (OSError, AttributeError) as ex:
+                self.notes.append(f"named pipes not usable here ({ex}): the pipe-input case was skipped")
             # no subcommand
             d = self.fresh()
             rc, panicked, _ = self.run([], d)
